@@ -10,7 +10,10 @@ EXPLANATION = (
     'stderr handle, nothing on stdout, process::exit(non-zero); census of every stdout / stderr writer in lib+bin '
     '(display, newline, REPL; closed under helper extraction); evaluation stops at the first error; forms are '
     'read one at a time (an error in a later form does not prevent earlier output); eval_file reaches evaluation '
-    "only through eval after recording the program directory; eval returns the last form's value.")
+    "only through eval after recording the program directory; eval returns the last form's value. The flow table "
+    'of Interpreter::eval scripts the tokenizer and the form reader (lazy iterator semantics): read, evaluate, '
+    'read, evaluate; a lexical, read or evaluation error stops there and earlier forms were already evaluated; no '
+    'Result<_, io::Error> is dropped.')
 NOT_DECIDED = ("byte-exact stdout for arbitrary programs; equality with in-process evaluation of the same "
                "text; behaviour of the OS / file system.")
 
